@@ -23,8 +23,8 @@ Print Assumptions C01_envelope_is_accepted_only.
 Example C01_nonvacuous :
   existsb (fun e => match e with Note (NRcpt _ RNotLocal) => true | _ => false end)
     (run_session {| o_helo := fun _ => true; o_addr := fun _ _ => AP_ok [120]%N None RNotLocal;
-                    o_ext := fun _ => Ext_ok 0 0; o_relay := 1%Z; o_mx := fun _ => 0; o_qq := fun _ => QQ_ok;
-                    o_databytes := 0%N; o_liphost := []; o_trace := fun _ _ _ _ _ => [] |}
+                    o_ext := fun _ => Ext_ok 0 0 None; o_relay := 1%Z; o_mx := fun _ => 0; o_qq := fun _ => QQ_ok;
+                    o_databytes := 0%N; o_liphost := []; o_check2822 := false; o_trace := fun _ _ _ _ _ => [] |}
         [ [72;69;76;79;32;120;13;10]; [77;65;73;76;32;70;82;79;77;58;60;97;62;13;10];
           [82;67;80;84;32;84;79;58;60;98;62;13;10] ]%N) = true.
 Proof. vm_compute. reflexivity. Qed.
